@@ -192,6 +192,14 @@ func failstopDomain(e *emitter) {
 		add(1, [5]int{1, 0, 1, 1, 1}, peer.FaultNone, 0, e.seed+1)
 		add(2, [5]int{2, 1, 2, 0, 3}, peer.FaultGarbage, 5, 0)
 		add(2, [5]int{2, 1, 2, 0, 3}, peer.FaultClose, 9, e.seed+2)
+		// runs that END with each procedure (nothing follows that could notice the fault later): a close at every read
+		for _, c := range [][5]int{{1, 0, 0, 0, 0}, {1, 1, 0, 0, 0}, {1, 1, 1, 0, 0}, {1, 0, 0, 0, 1}, {0, 0, 0, 0, 0}} {
+			reads, _ := fsShape(c)
+			for k := 0; k < reads; k++ {
+				add(1, c, peer.FaultClose, k, e.seed+3)
+			}
+			add(1, c, peer.FaultGarbage, reads-1, e.seed+3)
+		}
 		// outside the fault model: a peer that neither answers nor closes (the run is killed after 8 idle seconds)
 		add(1, [5]int{1, 1, 1, 1, 1}, peer.FaultSilent, 3, 0)
 	} else {
@@ -201,6 +209,9 @@ func failstopDomain(e *emitter) {
 		sweep(2, [5]int{2, 1, 5, 0, 3}, e.seed+2, []string{peer.FaultClose, peer.FaultTrunc}, 2)
 		sweep(1, [5]int{1, -1, 1, 1, 2}, e.seed+3, []string{peer.FaultClose, peer.FaultGarbage}, 1)
 		sweep(1, [5]int{1, 1, 1, 1, 1}, 0, []string{peer.FaultClose, peer.FaultGarbage, peer.FaultTrunc, peer.FaultOther}, 1)
+		for _, c := range [][5]int{{1, 0, 0, 0, 0}, {2, 1, 0, 0, 0}, {2, 2, 1, 0, 0}, {2, 0, 0, 0, 1}, {2, 2, 0, 2, 0}} {
+			sweep(c[0], c, e.seed+6, []string{peer.FaultClose, peer.FaultGarbage}, 2)
+		}
 		add(0, [5]int{0, 3, 3, 3, 3}, peer.FaultNone, 0, e.seed+4)
 		add(0, [5]int{0, 3, 3, 3, 3}, peer.FaultClose, 0, e.seed+4)
 		add(0, [5]int{0, 3, 3, 3, 3}, peer.FaultGarbage, 0, e.seed+4)
